@@ -237,7 +237,9 @@ def run_property(pid, tier, seed, jobs):
         "wall_s": round(wall, 2),
         "violations": len(viol_unknown),
     }
-    json.dump(evidence, open(os.path.join(VERIF, "evidence", f"{pid}.json"), "w"), indent=1, default=str)
+    evdir = os.environ.get("VERIF_EVIDENCE_DIR") or os.path.join(VERIF, "evidence")     # tools/with_patch.sh points this elsewhere
+    os.makedirs(evdir, exist_ok=True)
+    json.dump(evidence, open(os.path.join(evdir, f"{pid}.json"), "w"), indent=1, default=str)
     for l in lines:
         print(l)
     print(f"[{pid} {tier}] cases={len(cases)} paths={n_paths} obligations={n_obl} discharged={n_discharged} "
